@@ -14,3 +14,5 @@ import AkVerif.Props.C05
 import AkVerif.Props.C01
 import AkVerif.Props.C02
 import AkVerif.Props.C09
+import AkVerif.Props.C16
+import AkVerif.Props.C07
